@@ -654,8 +654,33 @@ func TestC01Exhaustive(t *testing.T) {
 	st.SetExhaustive(fmt.Sprintf("all expression trees with <= %d operator nodes over %d constructors (15 binary operators, in, index, two signs, not/isnull/isnotnull/tolower/toupper/strcat/iff, one pass-through function), leaves a, b, c, ... in order, in the where position, once with the parentheses the grammar needs and once with every operand parenthesised", maxNodes, len(cs)))
 	idx := 0
 	failed := false
-	for n := 1; n <= maxNodes && !failed; n++ {
-		enumTrees(n, cs, func(shape gen.Expr) {
+	type pass struct {
+		n  int
+		cs []ctor
+	}
+	var passes []pass
+	for n := 1; n <= maxNodes; n++ {
+		passes = append(passes, pass{n, cs})
+	}
+	if env.Thorough() {
+		// four operator nodes over one representative per precedence level
+		// plus the constructors with special parenthesisation
+		keep := map[string]bool{"or": true, "and": true, "==": true, "<": true, "=~": true, "+": true, "-": true, "*": true, "in": true, "index": true, "neg": true, "not": true}
+		var small []ctor
+		for _, c := range cs {
+			if keep[c.name] {
+				small = append(small, c)
+			}
+		}
+		passes = append(passes, pass{4, small})
+		st.Note("thorough: additionally all trees with exactly 4 operator nodes over the %d constructors or and == < =~ + - * in index neg not", len(small))
+	}
+	for _, ps := range passes {
+		if failed {
+			break
+		}
+		n := ps.n
+		enumTrees(n, ps.cs, func(shape gen.Expr) {
 			if failed {
 				return
 			}
